@@ -37,7 +37,7 @@ deriving DecidableEq, Repr
 
 /-- site key ↦ how it is covered -/
 def cover : List (String × List Cover) := [
-  ("amgcl/adapter/block_matrix.hpp|unblock_matrix|A.ptr", [.poison "h_pipeline"]),
+  ("amgcl/adapter/block_matrix.hpp|unblock_matrix|A.ptr", [.thm "Amgcl.C10d.unblock_ptr_defined", .poison "h_pipeline"]),
   ("amgcl/backend/builtin.hpp|crs::crs|col", [.thm "Amgcl.C10c.clone_defined", .poison "h_pipeline"]),
   ("amgcl/backend/builtin.hpp|crs::crs|col#2", [.thm "Amgcl.C10c.crs_copy_defined", .poison "h_pipeline"]),
   ("amgcl/backend/builtin.hpp|crs::crs|col#3", [.thm "Amgcl.C10c.clone_defined", .poison "h_pipeline"]),
@@ -51,7 +51,7 @@ def cover : List (String × List Cover) := [
   ("amgcl/backend/builtin.hpp|crs::operator=|ptr", [.thm "Amgcl.C10c.clone_defined", .poison "h_pipeline"]),
   ("amgcl/backend/builtin.hpp|crs::operator=|val", [.thm "Amgcl.C10c.clone_defined", .poison "h_pipeline"]),
   ("amgcl/backend/builtin.hpp|crs::set_nonzeros|col", [.thm "Amgcl.C10c.two_pass_defined", .poison "h_pipeline"]),
-  ("amgcl/backend/builtin.hpp|crs::set_nonzeros|this.col+val", [.poison "h_pipeline"]),
+  ("amgcl/backend/builtin.hpp|crs::set_nonzeros|this.col+val", [.thm "Amgcl.C10d.set_nonzeros_zero_defined", .thm "Amgcl.C10d.transpose_defined", .poison "h_pipeline"]),
   ("amgcl/backend/builtin.hpp|crs::set_nonzeros|val", [.thm "Amgcl.C10c.two_pass_defined", .poison "h_pipeline"]),
   ("amgcl/backend/builtin.hpp|crs::set_size|ptr", [.thm "Amgcl.C10c.two_pass_defined", .poison "h_pipeline"]),
   ("amgcl/backend/builtin.hpp|diagonal|dia", [.thm "Amgcl.C10.diagonal_always_defined", .poison "h_pipeline"]),
@@ -59,102 +59,102 @@ def cover : List (String × List Cover) := [
   ("amgcl/backend/builtin.hpp|numa_vector::numa_vector|p#2", [.thm "Amgcl.C10c.fill_vec_defined", .poison "h_pipeline"]),
   ("amgcl/backend/builtin.hpp|numa_vector::numa_vector|p#3", [.thm "Amgcl.C10c.fill_vec_defined", .poison "h_pipeline"]),
   ("amgcl/backend/builtin.hpp|numa_vector::resize|p", [.thm "Amgcl.C10c.fill_vec_defined", .poison "h_pipeline"]),
-  ("amgcl/backend/builtin.hpp|pointwise_matrix|Ap.col+val", [.poison "h_pipeline"]),
-  ("amgcl/backend/builtin.hpp|spectral_radius|b0", [.poison "h_pipeline"]),
-  ("amgcl/backend/builtin.hpp|spectral_radius|b1", [.poison "h_pipeline"]),
+  ("amgcl/backend/builtin.hpp|pointwise_matrix|Ap.col+val", [.thm "Amgcl.C10d.pointwise_matrix_defined", .poison "h_pipeline"]),
+  ("amgcl/backend/builtin.hpp|spectral_radius|b0", [.thm "Amgcl.C10d.spectral_radius_power_defined", .poison "h_pipeline"]),
+  ("amgcl/backend/builtin.hpp|spectral_radius|b1", [.thm "Amgcl.C10d.spectral_radius_power_defined", .poison "h_pipeline"]),
   ("amgcl/backend/builtin.hpp|sum|C.col+val", [.thm "Amgcl.C10.sum_cells_all_written", .poison "h_pipeline"]),
   ("amgcl/backend/builtin.hpp|sum|C.ptr", [.thm "Amgcl.C10.sum_cells_all_written", .poison "h_pipeline"]),
   ("amgcl/coarsening/ruge_stuben.hpp|ruge_stuben::connect|S.col", [.thm "Amgcl.C10b.connect_indep_heap", .poison "h_pipeline"]),
   ("amgcl/coarsening/ruge_stuben.hpp|ruge_stuben::connect|S.ptr", [.thm "Amgcl.C10b.connect_indep_heap", .poison "h_pipeline"]),
   ("amgcl/coarsening/ruge_stuben.hpp|ruge_stuben::connect|S.val", [.thm "Amgcl.C10.connect_defined", .thm "Amgcl.C10b.connect_flags_written", .poison "h_pipeline"]),
   ("amgcl/coarsening/ruge_stuben.hpp|ruge_stuben::operators|P.col+val", [.thm "Amgcl.C10b.prolongation_cells_all_written", .poison "h_pipeline"]),
-  ("amgcl/coarsening/smoothed_aggr_emin.hpp|smoothed_aggr_emin::operators|Af.col+val", [.poison "h_pipeline"]),
-  ("amgcl/coarsening/smoothed_aggr_emin.hpp|smoothed_aggr_emin::operators|Af.ptr", [.poison "h_pipeline"]),
+  ("amgcl/coarsening/smoothed_aggr_emin.hpp|smoothed_aggr_emin::operators|Af.col+val", [.thm "Amgcl.C10d.emin_Af_defined", .poison "h_pipeline"]),
+  ("amgcl/coarsening/smoothed_aggr_emin.hpp|smoothed_aggr_emin::operators|Af.ptr", [.thm "Amgcl.C10d.emin_Af_defined", .poison "h_pipeline"]),
   ("amgcl/coarsening/tentative_prolongation.hpp|tentative_prolongation|P.col+val", [.thm "Amgcl.C10c.tentative_prolongation_defined", .poison "h_pipeline"]),
-  ("amgcl/coarsening/tentative_prolongation.hpp|tentative_prolongation|P.ptr", [.poison "h_pipeline"]),
+  ("amgcl/coarsening/tentative_prolongation.hpp|tentative_prolongation|P.ptr", [.thm "Amgcl.C10d.tentative_ns_ptr_defined", .poison "h_pipeline"]),
   ("amgcl/coarsening/tentative_prolongation.hpp|tentative_prolongation|P.ptr#2", [.thm "Amgcl.C10c.tentative_prolongation_defined", .poison "h_pipeline"]),
-  ("amgcl/detail/spgemm.hpp|spgemm_rmerge|C.col+val", [.poison "h_pipeline"]),
-  ("amgcl/detail/spgemm.hpp|spgemm_rmerge|C.ptr", [.poison "h_pipeline"]),
+  ("amgcl/detail/spgemm.hpp|spgemm_rmerge|C.col+val", [.thm "Amgcl.C10f.spgemm_rmerge_defined", .poison "h_pipeline"]),
+  ("amgcl/detail/spgemm.hpp|spgemm_rmerge|C.ptr", [.thm "Amgcl.C10f.spgemm_rmerge_defined", .poison "h_pipeline"]),
   ("amgcl/detail/spgemm.hpp|spgemm_saad|C.col+val", [.thm "Amgcl.C10.product_cells_all_written", .poison "h_pipeline"]),
   ("amgcl/detail/spgemm.hpp|spgemm_saad|C.ptr", [.thm "Amgcl.C10.product_cells_all_written", .poison "h_pipeline"]),
-  ("amgcl/mpi/coarsening/pmis.hpp|pmis::conn_strength|S_loc.col", [.poison "h_mpi_solve_poison"]),
-  ("amgcl/mpi/coarsening/pmis.hpp|pmis::conn_strength|S_loc.val", [.poison "h_mpi_solve_poison"]),
-  ("amgcl/mpi/coarsening/pmis.hpp|pmis::conn_strength|S_rem.col", [.poison "h_mpi_solve_poison"]),
-  ("amgcl/mpi/coarsening/pmis.hpp|pmis::conn_strength|S_rem.val", [.poison "h_mpi_solve_poison"]),
+  ("amgcl/mpi/coarsening/pmis.hpp|pmis::conn_strength|S_loc.col", [.thm "Amgcl.C10i.pmis_strength_col_defined", .poison "h_mpi_solve_poison"]),
+  ("amgcl/mpi/coarsening/pmis.hpp|pmis::conn_strength|S_loc.val", [.thm "Amgcl.C10i.pmis_strength_val_defined", .poison "h_mpi_solve_poison"]),
+  ("amgcl/mpi/coarsening/pmis.hpp|pmis::conn_strength|S_rem.col", [.thm "Amgcl.C10i.pmis_strength_col_defined", .poison "h_mpi_solve_poison"]),
+  ("amgcl/mpi/coarsening/pmis.hpp|pmis::conn_strength|S_rem.val", [.thm "Amgcl.C10i.pmis_strength_val_defined", .poison "h_mpi_solve_poison"]),
   ("amgcl/mpi/coarsening/pmis.hpp|pmis::squared_interface|S_loc.col", [.poison "h_mpi_solve_poison"]),
   ("amgcl/mpi/coarsening/pmis.hpp|pmis::squared_interface|S_loc.ptr", [.poison "h_mpi_solve_poison"]),
   ("amgcl/mpi/coarsening/pmis.hpp|pmis::squared_interface|S_rem.col", [.poison "h_mpi_solve_poison"]),
   ("amgcl/mpi/coarsening/pmis.hpp|pmis::squared_interface|S_rem.ptr", [.poison "h_mpi_solve_poison"]),
-  ("amgcl/mpi/coarsening/pmis.hpp|pmis::tentative_prolongation|P_loc.col+val#2", [.poison "h_mpi_solve_poison"]),
-  ("amgcl/mpi/coarsening/pmis.hpp|pmis::tentative_prolongation|P_rem.col+val#2", [.poison "h_mpi_solve_poison"]),
-  ("amgcl/mpi/coarsening/smoothed_aggregation.hpp|smoothed_aggregation::operators|Af_loc_val", [.poison "h_mpi_solve_poison"]),
-  ("amgcl/mpi/coarsening/smoothed_aggregation.hpp|smoothed_aggregation::operators|Af_rem_val", [.poison "h_mpi_solve_poison"]),
+  ("amgcl/mpi/coarsening/pmis.hpp|pmis::tentative_prolongation|P_loc.col+val#2", [.thm "Amgcl.C10i.pmis_tentative_defined", .poison "h_mpi_solve_poison"]),
+  ("amgcl/mpi/coarsening/pmis.hpp|pmis::tentative_prolongation|P_rem.col+val#2", [.thm "Amgcl.C10i.pmis_tentative_defined", .poison "h_mpi_solve_poison"]),
+  ("amgcl/mpi/coarsening/smoothed_aggregation.hpp|smoothed_aggregation::operators|Af_loc_val", [.thm "Amgcl.C10i.mpi_sa_filtered_val_defined", .poison "h_mpi_solve_poison"]),
+  ("amgcl/mpi/coarsening/smoothed_aggregation.hpp|smoothed_aggregation::operators|Af_rem_val", [.thm "Amgcl.C10i.mpi_sa_filtered_val_defined", .poison "h_mpi_solve_poison"]),
   ("amgcl/mpi/coarsening/smoothed_aggregation.hpp|smoothed_aggregation::operators|Df", [.poison "h_mpi_solve_poison"]),
-  ("amgcl/mpi/direct_solver/solver_base.hpp|solver_base::init|A.col+val", [.poison "h_mpi_solve_poison"]),
-  ("amgcl/mpi/direct_solver/solver_base.hpp|solver_base::init|A.ptr", [.poison "h_mpi_solve_poison"]),
-  ("amgcl/mpi/direct_solver/solver_base.hpp|solver_base::init|a.col+val", [.poison "h_mpi_solve_poison"]),
-  ("amgcl/mpi/direct_solver/solver_base.hpp|solver_base::init|a.ptr", [.poison "h_mpi_solve_poison"]),
-  ("amgcl/mpi/distributed_matrix.hpp|distributed_matrix::distributed_matrix|A_loc.col+val", [.poison "h_mpi_solve_poison"]),
-  ("amgcl/mpi/distributed_matrix.hpp|distributed_matrix::distributed_matrix|A_rem.col+val", [.poison "h_mpi_solve_poison"]),
+  ("amgcl/mpi/direct_solver/solver_base.hpp|solver_base::init|A.col+val", [.thm "Amgcl.C10g.solver_base_gather_defined", .poison "h_mpi_solve_poison"]),
+  ("amgcl/mpi/direct_solver/solver_base.hpp|solver_base::init|A.ptr", [.thm "Amgcl.C10g.solver_base_gather_defined", .poison "h_mpi_solve_poison"]),
+  ("amgcl/mpi/direct_solver/solver_base.hpp|solver_base::init|a.col+val", [.thm "Amgcl.C10g.solver_base_local_defined", .poison "h_mpi_solve_poison"]),
+  ("amgcl/mpi/direct_solver/solver_base.hpp|solver_base::init|a.ptr", [.thm "Amgcl.C10g.solver_base_local_defined", .poison "h_mpi_solve_poison"]),
+  ("amgcl/mpi/distributed_matrix.hpp|distributed_matrix::distributed_matrix|A_loc.col+val", [.thm "Amgcl.C10g.dist_matrix_split_defined", .poison "h_mpi_solve_poison"]),
+  ("amgcl/mpi/distributed_matrix.hpp|distributed_matrix::distributed_matrix|A_rem.col+val", [.thm "Amgcl.C10g.dist_matrix_split_defined", .poison "h_mpi_solve_poison"]),
   ("amgcl/mpi/distributed_matrix.hpp|product|C_loc.col+val", [.poison "h_mpi_solve_poison"]),
   ("amgcl/mpi/distributed_matrix.hpp|product|C_loc.ptr", [.poison "h_mpi_solve_poison"]),
   ("amgcl/mpi/distributed_matrix.hpp|product|C_rem.col+val", [.poison "h_mpi_solve_poison"]),
   ("amgcl/mpi/distributed_matrix.hpp|product|C_rem.ptr", [.poison "h_mpi_solve_poison"]),
-  ("amgcl/mpi/distributed_matrix.hpp|remote_rows|B_nbr.col+val", [.poison "h_mpi_solve_poison"]),
-  ("amgcl/mpi/distributed_matrix.hpp|remote_rows|B_nbr.ptr", [.poison "h_mpi_solve_poison"]),
-  ("amgcl/mpi/distributed_matrix.hpp|remote_rows|m.col+val", [.poison "h_mpi_solve_poison"]),
-  ("amgcl/mpi/distributed_matrix.hpp|remote_rows|m.ptr", [.poison "h_mpi_solve_poison"]),
-  ("amgcl/mpi/distributed_matrix.hpp|spectral_radius|b0", [.poison "h_mpi_poison"]),
-  ("amgcl/mpi/distributed_matrix.hpp|spectral_radius|b1", [.poison "h_mpi_poison"]),
-  ("amgcl/mpi/distributed_matrix.hpp|spectral_radius|rem_col", [.poison "h_mpi_poison"]),
-  ("amgcl/mpi/partition/util.hpp|graph_perm_matrix|I_loc.col+val", [.poison "h_mpi_solve_poison"]),
-  ("amgcl/mpi/partition/util.hpp|graph_perm_matrix|I_loc.ptr", [.poison "h_mpi_solve_poison"]),
-  ("amgcl/mpi/partition/util.hpp|graph_perm_matrix|I_rem.col+val", [.poison "h_mpi_solve_poison"]),
-  ("amgcl/mpi/partition/util.hpp|graph_perm_matrix|I_rem.ptr", [.poison "h_mpi_solve_poison"]),
-  ("amgcl/mpi/relaxation/spai0.hpp|spai0::spai0|m", [.poison "h_mpi_solve_poison"]),
-  ("amgcl/preconditioner/cpr.hpp|cpr::first_scalar_pass|App.col+val", [.poison "h_pipeline"]),
-  ("amgcl/preconditioner/cpr.hpp|cpr::first_scalar_pass|fpp.col+val", [.poison "h_pipeline"]),
-  ("amgcl/preconditioner/cpr.hpp|cpr::first_scalar_pass|fpp.ptr", [.poison "h_pipeline"]),
-  ("amgcl/preconditioner/cpr.hpp|cpr::init|App.col+val", [.poison "h_pipeline"]),
-  ("amgcl/preconditioner/cpr.hpp|cpr::init|fpp.col+val", [.poison "h_pipeline"]),
-  ("amgcl/preconditioner/cpr.hpp|cpr::init|fpp.ptr", [.poison "h_pipeline"]),
-  ("amgcl/preconditioner/cpr.hpp|cpr::init|scatter.col+val", [.poison "h_pipeline"]),
-  ("amgcl/preconditioner/cpr.hpp|cpr::init|scatter.col+val#2", [.poison "h_pipeline"]),
-  ("amgcl/preconditioner/cpr.hpp|cpr::init|scatter.ptr", [.poison "h_pipeline"]),
-  ("amgcl/preconditioner/cpr.hpp|cpr::init|scatter.ptr#2", [.poison "h_pipeline"]),
-  ("amgcl/preconditioner/cpr.hpp|cpr::update_transfer|fpp.col+val", [.poison "h_pipeline"]),
-  ("amgcl/preconditioner/cpr.hpp|cpr::update_transfer|fpp.ptr", [.poison "h_pipeline"]),
-  ("amgcl/preconditioner/cpr_drs.hpp|cpr_drs::first_scalar_pass|App.col+val", [.poison "h_pipeline"]),
-  ("amgcl/preconditioner/cpr_drs.hpp|cpr_drs::first_scalar_pass|fpp.col+val", [.poison "h_pipeline"]),
-  ("amgcl/preconditioner/cpr_drs.hpp|cpr_drs::first_scalar_pass|fpp.ptr", [.poison "h_pipeline"]),
-  ("amgcl/preconditioner/cpr_drs.hpp|cpr_drs::init|App.col+val", [.poison "h_pipeline"]),
-  ("amgcl/preconditioner/cpr_drs.hpp|cpr_drs::init|fpp.col+val", [.poison "h_pipeline"]),
-  ("amgcl/preconditioner/cpr_drs.hpp|cpr_drs::init|fpp.ptr", [.poison "h_pipeline"]),
-  ("amgcl/preconditioner/cpr_drs.hpp|cpr_drs::init|scatter.col+val", [.poison "h_pipeline"]),
-  ("amgcl/preconditioner/cpr_drs.hpp|cpr_drs::init|scatter.col+val#2", [.poison "h_pipeline"]),
-  ("amgcl/preconditioner/cpr_drs.hpp|cpr_drs::init|scatter.ptr", [.poison "h_pipeline"]),
-  ("amgcl/preconditioner/cpr_drs.hpp|cpr_drs::init|scatter.ptr#2", [.poison "h_pipeline"]),
-  ("amgcl/preconditioner/cpr_drs.hpp|cpr_drs::update_transfer|fpp.col+val", [.poison "h_pipeline"]),
-  ("amgcl/preconditioner/cpr_drs.hpp|cpr_drs::update_transfer|fpp.ptr", [.poison "h_pipeline"]),
-  ("amgcl/preconditioner/schur_pressure_correction.hpp|schur_pressure_correction::init|Kpp.col+val", [.poison "h_pipeline"]),
-  ("amgcl/preconditioner/schur_pressure_correction.hpp|schur_pressure_correction::init|Kpu.col+val", [.poison "h_pipeline"]),
-  ("amgcl/preconditioner/schur_pressure_correction.hpp|schur_pressure_correction::init|Kup.col+val", [.poison "h_pipeline"]),
-  ("amgcl/preconditioner/schur_pressure_correction.hpp|schur_pressure_correction::init|Kuu.col+val", [.poison "h_pipeline"]),
-  ("amgcl/preconditioner/schur_pressure_correction.hpp|schur_pressure_correction::init|L", [.poison "h_pipeline"]),
+  ("amgcl/mpi/distributed_matrix.hpp|remote_rows|B_nbr.col+val", [.thm "Amgcl.C10g.remote_rows_nbr_defined", .poison "h_mpi_solve_poison"]),
+  ("amgcl/mpi/distributed_matrix.hpp|remote_rows|B_nbr.ptr", [.thm "Amgcl.C10g.remote_rows_nbr_defined", .poison "h_mpi_solve_poison"]),
+  ("amgcl/mpi/distributed_matrix.hpp|remote_rows|m.col+val", [.thm "Amgcl.C10i.remote_rows_send_defined", .poison "h_mpi_solve_poison"]),
+  ("amgcl/mpi/distributed_matrix.hpp|remote_rows|m.ptr", [.thm "Amgcl.C10i.remote_rows_send_defined", .poison "h_mpi_solve_poison"]),
+  ("amgcl/mpi/distributed_matrix.hpp|spectral_radius|b0", [.thm "Amgcl.C10g.mpi_spectral_radius_defined", .poison "h_mpi_poison"]),
+  ("amgcl/mpi/distributed_matrix.hpp|spectral_radius|b1", [.thm "Amgcl.C10g.mpi_spectral_radius_defined", .poison "h_mpi_poison"]),
+  ("amgcl/mpi/distributed_matrix.hpp|spectral_radius|rem_col", [.thm "Amgcl.C10g.mpi_rem_col_defined", .poison "h_mpi_poison"]),
+  ("amgcl/mpi/partition/util.hpp|graph_perm_matrix|I_loc.col+val", [.thm "Amgcl.C10g.graph_perm_matrix_defined", .poison "h_mpi_solve_poison"]),
+  ("amgcl/mpi/partition/util.hpp|graph_perm_matrix|I_loc.ptr", [.thm "Amgcl.C10g.graph_perm_matrix_defined", .poison "h_mpi_solve_poison"]),
+  ("amgcl/mpi/partition/util.hpp|graph_perm_matrix|I_rem.col+val", [.thm "Amgcl.C10g.graph_perm_matrix_defined", .poison "h_mpi_solve_poison"]),
+  ("amgcl/mpi/partition/util.hpp|graph_perm_matrix|I_rem.ptr", [.thm "Amgcl.C10g.graph_perm_matrix_defined", .poison "h_mpi_solve_poison"]),
+  ("amgcl/mpi/relaxation/spai0.hpp|spai0::spai0|m", [.thm "Amgcl.C10g.mpi_spai0_defined", .poison "h_mpi_solve_poison"]),
+  ("amgcl/preconditioner/cpr.hpp|cpr::first_scalar_pass|App.col+val", [.thm "Amgcl.C10j.cpr_App_scalar_defined", .poison "h_pipeline"]),
+  ("amgcl/preconditioner/cpr.hpp|cpr::first_scalar_pass|fpp.col+val", [.thm "Amgcl.C10e.cpr_fpp_defined", .poison "h_pipeline"]),
+  ("amgcl/preconditioner/cpr.hpp|cpr::first_scalar_pass|fpp.ptr", [.thm "Amgcl.C10e.cpr_fpp_defined", .poison "h_pipeline"]),
+  ("amgcl/preconditioner/cpr.hpp|cpr::init|App.col+val", [.thm "Amgcl.C10e.cpr_App_block_defined", .poison "h_pipeline"]),
+  ("amgcl/preconditioner/cpr.hpp|cpr::init|fpp.col+val", [.thm "Amgcl.C10e.cpr_fpp_defined", .poison "h_pipeline"]),
+  ("amgcl/preconditioner/cpr.hpp|cpr::init|fpp.ptr", [.thm "Amgcl.C10e.cpr_fpp_defined", .poison "h_pipeline"]),
+  ("amgcl/preconditioner/cpr.hpp|cpr::init|scatter.col+val", [.thm "Amgcl.C10e.cpr_scatter_defined", .poison "h_pipeline"]),
+  ("amgcl/preconditioner/cpr.hpp|cpr::init|scatter.col+val#2", [.thm "Amgcl.C10e.cpr_scatter_defined", .poison "h_pipeline"]),
+  ("amgcl/preconditioner/cpr.hpp|cpr::init|scatter.ptr", [.thm "Amgcl.C10e.cpr_scatter_defined", .poison "h_pipeline"]),
+  ("amgcl/preconditioner/cpr.hpp|cpr::init|scatter.ptr#2", [.thm "Amgcl.C10e.cpr_scatter_defined", .poison "h_pipeline"]),
+  ("amgcl/preconditioner/cpr.hpp|cpr::update_transfer|fpp.col+val", [.thm "Amgcl.C10e.cpr_fpp_defined", .poison "h_pipeline"]),
+  ("amgcl/preconditioner/cpr.hpp|cpr::update_transfer|fpp.ptr", [.thm "Amgcl.C10e.cpr_fpp_defined", .poison "h_pipeline"]),
+  ("amgcl/preconditioner/cpr_drs.hpp|cpr_drs::first_scalar_pass|App.col+val", [.thm "Amgcl.C10j.cpr_drs_App_scalar_defined", .poison "h_pipeline"]),
+  ("amgcl/preconditioner/cpr_drs.hpp|cpr_drs::first_scalar_pass|fpp.col+val", [.thm "Amgcl.C10e.cpr_drs_fpp_defined", .poison "h_pipeline"]),
+  ("amgcl/preconditioner/cpr_drs.hpp|cpr_drs::first_scalar_pass|fpp.ptr", [.thm "Amgcl.C10e.cpr_drs_fpp_defined", .poison "h_pipeline"]),
+  ("amgcl/preconditioner/cpr_drs.hpp|cpr_drs::init|App.col+val", [.thm "Amgcl.C10e.cpr_App_block_defined", .poison "h_pipeline"]),
+  ("amgcl/preconditioner/cpr_drs.hpp|cpr_drs::init|fpp.col+val", [.thm "Amgcl.C10e.cpr_drs_fpp_defined", .poison "h_pipeline"]),
+  ("amgcl/preconditioner/cpr_drs.hpp|cpr_drs::init|fpp.ptr", [.thm "Amgcl.C10e.cpr_drs_fpp_defined", .poison "h_pipeline"]),
+  ("amgcl/preconditioner/cpr_drs.hpp|cpr_drs::init|scatter.col+val", [.thm "Amgcl.C10e.cpr_scatter_defined", .poison "h_pipeline"]),
+  ("amgcl/preconditioner/cpr_drs.hpp|cpr_drs::init|scatter.col+val#2", [.thm "Amgcl.C10e.cpr_scatter_defined", .poison "h_pipeline"]),
+  ("amgcl/preconditioner/cpr_drs.hpp|cpr_drs::init|scatter.ptr", [.thm "Amgcl.C10e.cpr_scatter_defined", .poison "h_pipeline"]),
+  ("amgcl/preconditioner/cpr_drs.hpp|cpr_drs::init|scatter.ptr#2", [.thm "Amgcl.C10e.cpr_scatter_defined", .poison "h_pipeline"]),
+  ("amgcl/preconditioner/cpr_drs.hpp|cpr_drs::update_transfer|fpp.col+val", [.thm "Amgcl.C10e.cpr_drs_fpp_defined", .poison "h_pipeline"]),
+  ("amgcl/preconditioner/cpr_drs.hpp|cpr_drs::update_transfer|fpp.ptr", [.thm "Amgcl.C10e.cpr_drs_fpp_defined", .poison "h_pipeline"]),
+  ("amgcl/preconditioner/schur_pressure_correction.hpp|schur_pressure_correction::init|Kpp.col+val", [.thm "Amgcl.C10f.schur_block_defined", .poison "h_pipeline"]),
+  ("amgcl/preconditioner/schur_pressure_correction.hpp|schur_pressure_correction::init|Kpu.col+val", [.thm "Amgcl.C10f.schur_block_defined", .poison "h_pipeline"]),
+  ("amgcl/preconditioner/schur_pressure_correction.hpp|schur_pressure_correction::init|Kup.col+val", [.thm "Amgcl.C10f.schur_block_defined", .poison "h_pipeline"]),
+  ("amgcl/preconditioner/schur_pressure_correction.hpp|schur_pressure_correction::init|Kuu.col+val", [.thm "Amgcl.C10f.schur_block_defined", .poison "h_pipeline"]),
+  ("amgcl/preconditioner/schur_pressure_correction.hpp|schur_pressure_correction::init|L", [.thm "Amgcl.C10f.schur_L_defined", .poison "h_pipeline"]),
   ("amgcl/relaxation/ilu0.hpp|ilu0::ilu0|D", [.thm "Amgcl.C10c.ilu0_defined", .poison "h_pipeline"]),
-  ("amgcl/relaxation/ilu0.hpp|ilu0::ilu0|L.col+val", [.poison "h_pipeline"]),
-  ("amgcl/relaxation/ilu0.hpp|ilu0::ilu0|L.ptr", [.poison "h_pipeline"]),
-  ("amgcl/relaxation/ilu0.hpp|ilu0::ilu0|U.col+val", [.poison "h_pipeline"]),
-  ("amgcl/relaxation/ilu0.hpp|ilu0::ilu0|U.ptr", [.poison "h_pipeline"]),
-  ("amgcl/relaxation/iluk.hpp|iluk::iluk|D", [.poison "h_pipeline"]),
-  ("amgcl/relaxation/ilup.hpp|ilup::ilup|P.val", [.poison "h_pipeline"]),
-  ("amgcl/relaxation/ilup.hpp|symb_product|C.col", [.poison "h_pipeline"]),
-  ("amgcl/relaxation/ilup.hpp|symb_product|C.ptr", [.poison "h_pipeline"]),
-  ("amgcl/relaxation/ilut.hpp|ilut::ilut|D", [.poison "h_pipeline"]),
-  ("amgcl/relaxation/ilut.hpp|ilut::ilut|L.col+val", [.poison "h_pipeline"]),
-  ("amgcl/relaxation/ilut.hpp|ilut::ilut|L.ptr", [.poison "h_pipeline"]),
-  ("amgcl/relaxation/ilut.hpp|ilut::ilut|U.col+val", [.poison "h_pipeline"]),
-  ("amgcl/relaxation/ilut.hpp|ilut::ilut|U.ptr", [.poison "h_pipeline"]),
+  ("amgcl/relaxation/ilu0.hpp|ilu0::ilu0|L.col+val", [.thm "Amgcl.C10d.ilu0_LU_defined", .poison "h_pipeline"]),
+  ("amgcl/relaxation/ilu0.hpp|ilu0::ilu0|L.ptr", [.thm "Amgcl.C10d.ilu0_LU_defined", .poison "h_pipeline"]),
+  ("amgcl/relaxation/ilu0.hpp|ilu0::ilu0|U.col+val", [.thm "Amgcl.C10d.ilu0_LU_defined", .poison "h_pipeline"]),
+  ("amgcl/relaxation/ilu0.hpp|ilu0::ilu0|U.ptr", [.thm "Amgcl.C10d.ilu0_LU_defined", .poison "h_pipeline"]),
+  ("amgcl/relaxation/iluk.hpp|iluk::iluk|D", [.thm "Amgcl.C10d.iluk_D_defined", .poison "h_pipeline"]),
+  ("amgcl/relaxation/ilup.hpp|ilup::ilup|P.val", [.thm "Amgcl.C10f.ilup_Pval_defined", .poison "h_pipeline"]),
+  ("amgcl/relaxation/ilup.hpp|symb_product|C.col", [.thm "Amgcl.C10f.ilup_symb_product_defined", .poison "h_pipeline"]),
+  ("amgcl/relaxation/ilup.hpp|symb_product|C.ptr", [.thm "Amgcl.C10f.ilup_symb_product_defined", .poison "h_pipeline"]),
+  ("amgcl/relaxation/ilut.hpp|ilut::ilut|D", [.thm "Amgcl.C10d.ilut_D_defined", .poison "h_pipeline"]),
+  ("amgcl/relaxation/ilut.hpp|ilut::ilut|L.col+val", [.thm "Amgcl.C10d.ilut_LU_defined", .poison "h_pipeline"]),
+  ("amgcl/relaxation/ilut.hpp|ilut::ilut|L.ptr", [.thm "Amgcl.C10d.ilut_LU_defined", .poison "h_pipeline"]),
+  ("amgcl/relaxation/ilut.hpp|ilut::ilut|U.col+val", [.thm "Amgcl.C10d.ilut_LU_defined", .poison "h_pipeline"]),
+  ("amgcl/relaxation/ilut.hpp|ilut::ilut|U.ptr", [.thm "Amgcl.C10d.ilut_LU_defined", .poison "h_pipeline"]),
   ("amgcl/relaxation/spai0.hpp|spai0::spai0|m", [.thm "Amgcl.C10c.spai0_defined", .poison "h_pipeline"])]
 
 def coveredKeys : List String := cover.map (·.1)
